@@ -63,3 +63,31 @@ let fuel_nat = lazy (nat_of_int 200)
 let string_of_bytes (bs : Byte.byte list) : string =
   let b = Buffer.create 16 in
   Stdlib.List.iter (fun x -> Buffer.add_char b (Char.chr (int_of_byte x))) bs; Buffer.contents b
+
+(* NaN normal form (the model identifies all NaNs): schema-directed replacement of NaN bit patterns
+   in float / double fields by the NaN the decoders produce.  Not inside Any value bytes. *)
+let norm_nan (s : MsgSchema.schema) (tid : int) (v : MsgValue.value) : MsgValue.value =
+  let open MsgSchema in
+  let open MsgValue in
+  let fix_scalar (k : kind) (x : value) : value =
+    match k, x with
+    | KS SkFloat, VS (SN b) -> if RtSchema.f32_is_nan b then VS (SN RtSchema.f32_nan) else x
+    | KS SkDouble, VS (SN b) -> if RtSchema.f64_is_nan b then VS (SN RtSchema.f64_nan) else x
+    | _ -> x in
+  let rec go (tid : int) (v : value) : value =
+    match v with
+    | VMsg (fs, u) ->
+      let md = try Stdlib.List.nth s tid with _ -> [] in
+      VMsg (Stdlib.List.map (fun (num, vs) ->
+          match msg_find_field md num with
+          | None -> (num, vs)
+          | Some fd ->
+            let elem (x : value) : value =
+              match fd.f_kind, x with
+              | (KMsg t | KGrp t), VMsg _ -> go (int_of_nat t) x
+              | k, _ -> fix_scalar k x in
+            (num, Stdlib.List.map (fun x -> match x with
+                | VEntry (k, y) -> VEntry (k, elem y)
+                | _ -> elem x) vs)) fs, u)
+    | _ -> v in
+  go tid v
